@@ -139,6 +139,14 @@ def main():
         try:
             thorough['bits_axiom_instances_checked_against_cpython'] = pybits.selftest_axioms(lim=40, kmax=9)
             thorough['seq_axiom_instances_checked_against_cpython'] = pyseqs.selftest()
+            if any(u in ('bitsets.MemberBits.count', 'bitsets.integers.indexes_optimized', 'bitsets.MemberBits.bits', 'bitsets.MemberBits.shortlex',
+                         'bitsets.MemberBits.longlex', 'lemma.bitsets.shortlex_key') for u in units):
+                # BIN-TEXT theory (contracts/bitsets_bin.py, DESIGN 11.22): CPython's bin / format / slicing / str.count / enumerate against the copy of
+                # the definitions of lemmas/BitsBin.lean and against every schema (all n < 2^16, random n up to 2^300); against the Lean definitions (#eval)
+                from pyvc import bintext as pybin
+                thorough['bin_text_instances_checked_against_cpython'] = pybin.selftest()
+                if os.path.isdir(pybin.LEAN_DIR):
+                    thorough['bin_text_lean_definitions_evaluated_against_cpython'] = pybin.selftest_lean()
             # TEXT theory (contracts/formats_chars.py): CPython against every lemma schema and against the copy of the Lean definitions;
             # CPython against the Lean definitions themselves (#eval); the precondition of lemma.cxt.roundtrip is used by its proof
             if not any(u.startswith(('lemma.cxt.', 'lemma.table.', 'lemma.fimi.', 'lemma.csv.chars')) for u in units):
